@@ -68,6 +68,9 @@ func PlantDeps(t *rapid.T, cfg *Config, n int, allowOptional bool) []string {
 	}
 	var targets []target
 	for id, o := range m.Keyed {
+		if m.NilOutput(id) {
+			continue // nothing can sensibly depend on an output that is always nil
+		}
 		targets = append(targets, target{DepSpec{T: id.T, Key: id.Key}, o.Reg})
 	}
 	for gk, mem := range m.Groups {
@@ -150,7 +153,13 @@ func CloneConfig(c *Config) *Config {
 
 // depOn returns a dependency declaration on one of the identities reg provides.
 func depOn(t *rapid.T, r *Reg) (DepSpec, bool) {
-	ps := r.Provides()
+	var ps []Provided
+	for _, p := range r.Provides() {
+		if p.Out < len(r.Outs) && r.Outs[p.Out].Nil {
+			continue
+		}
+		ps = append(ps, p)
+	}
 	if len(ps) == 0 {
 		return DepSpec{}, false
 	}
